@@ -73,6 +73,28 @@ class Acc:
                     skip_samples=self.skip_samples)
 
 
+class CaseTimeout(BaseException):
+    """one case ran longer than the per-case limit: inconclusive (counted as truncated), never a violation"""
+
+
+CASE_LIMIT_S = int(os.environ.get("J2M_CASE_LIMIT", "90"))
+
+
+def _guarded(check, case):
+    import signal
+
+    def onalarm(signum, frame):
+        raise CaseTimeout()
+
+    old = signal.signal(signal.SIGALRM, onalarm)
+    signal.alarm(CASE_LIMIT_S)
+    try:
+        return check(case)
+    finally:
+        signal.alarm(0)
+        signal.signal(signal.SIGALRM, old)
+
+
 def run_shard(args):
     pid, tier, seed, phase_ix, shard, nshards = args
     acc = Acc()
@@ -92,7 +114,12 @@ def run_shard(args):
                 if time.monotonic() > deadline:
                     acc.truncated += 1
                     continue
-                acc.add_result(name, case, check(case))
+                try:
+                    acc.add_result(name, case, _guarded(check, case))
+                except CaseTimeout:
+                    acc.truncated += 1
+                    acc.skips["case-timeout"] += 1
+                    acc.skip_samples.setdefault("case-timeout", case)
         else:
             from hypothesis import given, settings, seed as hseed, HealthCheck, Phase
             n = int(math.ceil(phase["examples"] / nshards))
@@ -105,7 +132,12 @@ def run_shard(args):
                 if time.monotonic() > deadline:
                     acc.truncated += 1
                     return
-                acc.add_result(name, case, check(case))
+                try:
+                    acc.add_result(name, case, _guarded(check, case))
+                except CaseTimeout:
+                    acc.truncated += 1
+                    acc.skips["case-timeout"] += 1
+                    acc.skip_samples.setdefault("case-timeout", case)
 
             t()
         if phase.get("teardown"):
@@ -226,8 +258,18 @@ def main(argv=None):
         for s in range(ns):
             jobs.append((pid, tier, seed, pi, s, ns))
     ctx = multiprocessing.get_context("spawn")
-    with ctx.Pool(min(NSHARDS, len(jobs)) or 1) as pool:
-        results = pool.map(run_shard, jobs, chunksize=1)
+    import concurrent.futures as cf
+    results = [None] * len(jobs)
+    with cf.ProcessPoolExecutor(max_workers=min(NSHARDS, len(jobs)) or 1, mp_context=ctx) as pool:
+        futs = {pool.submit(run_shard, j): i for i, j in enumerate(jobs)}
+        for fut in cf.as_completed(futs):
+            i = futs[fut]
+            try:
+                results[i] = fut.result()
+            except Exception as e:  # noqa: BLE001  (a worker died: harness problem, never a violation)
+                a = Acc()
+                a.errors.append(f"worker for job {jobs[i][3:]} failed: {type(e).__name__}: {e}")
+                results[i] = a.export()
 
     total = Acc()
     per_phase = collections.defaultdict(lambda: dict(evaluations=0, nontrivial=set(), truncated=0))
